@@ -20,6 +20,12 @@
 (* is not on the calling thread's stack (already detached, or attached by  *)
 (* another thread) changes nothing.                                        *)
 (*                                                                         *)
+(* The program holds HANDLES to contexts (`live`).  Dropping a handle        *)
+(* (DropContext) may destroy the real object - in any order relative to    *)
+(* its parents and children - and must not change what any other context   *)
+(* answers: `val` is never touched.  A dropped context may still be on a   *)
+(* stack or inside a token; it can no longer be named by the program.      *)
+(*                                                                         *)
 (* Key 1 is the active-span key ("active_span").  Values 1..NV are plain   *)
 (* values, 100+s is span s.                                                *)
 (*                                                                         *)
@@ -36,6 +42,7 @@ CONSTANTS NT,         \* threads 1..NT
           MaxSet,     \* bound on the number of contexts created by SetValue / SetValues
           MaxDepth,   \* bound on the depth of a thread's stack
           MaxMap,     \* SetValues maps bind at most MaxMap keys
+          MaxDrop,    \* bound on the number of dropped context handles
           GenDepth,   \* generation runs: length of an exported behaviour
           DeepTarget, \* generation runs: stack depth that sets the flag "deep"
           Hist,       \* BOOLEAN: record behaviour + rare-condition flags (generation runs only)
@@ -53,12 +60,14 @@ VARIABLES val,      \* Seq: val[c] \in [Keys -> Val \cup {0}]   the value of con
           stack,    \* [Threads -> Seq([c |-> ctx id, before |-> ctx id current before the Attach])]
           toks,     \* context ids for which a token exists (attached at least once, by anybody)
           scopes,   \* context ids owned by a live trace::Scope
+          live,     \* context ids the program still holds a handle to (0, the empty context, always is)
+          phase,    \* ghost per thread: 0 start, 1 deep (>= DeepTarget) reached, 2 unwound to <= 3, 3 deep again
           last,     \* the last operation (for the action properties and the export)
           flags,    \* ghost: rare conditions seen so far (generation runs)
           hist      \* behaviour export
 
-bvars == <<val, origin, stack, toks, scopes>>
-vars  == <<val, origin, stack, toks, scopes, last, flags, hist>>
+bvars == <<val, origin, stack, toks, scopes, live, phase>>
+vars  == <<val, origin, stack, toks, scopes, live, phase, last, flags, hist>>
 
 NCtx     == Len(val)
 NSet     == Cardinality({c \in 1..Len(val) : ~origin[c].sc})
@@ -76,26 +85,33 @@ NoOp == [op |-> "Init", t |-> 0, c |-> 0, k |-> 0, v |-> 0, m |-> <<>>, ok |-> 1
 \* span, and what EVERY context created so far answers for EVERY key
 Obs == [cur  |-> [t \in Threads |-> Cur(stack', t)],
         span |-> [t \in Threads |-> CurSpan(val', stack', t)],
-        tab  |-> [c \in 1..Len(val') |-> val'[c]]]
+        tab  |-> [c \in 1..Len(val') |-> val'[c]],
+        live |-> [c \in 1..Len(val') |-> c \in live']]
 Rec(l) == /\ last' = l
           /\ hist' = IF Hist THEN Append(hist, l @@ Obs) ELSE hist
 Flag(f) == flags' = IF Hist \/ KeepFlags THEN flags \cup f ELSE flags
 
 Init == /\ val = <<>> /\ origin = <<>>
         /\ stack = [t \in Threads |-> <<>>]
-        /\ toks = {} /\ scopes = {}
+        /\ toks = {} /\ scopes = {} /\ live = {} /\ phase = [t \in Threads |-> 0]
         /\ last = NoOp /\ flags = {} /\ hist = <<>>
 
+Handles == live \cup {0}
+\* growth / unwinding cycle of a thread's stack (ghost; only moves when DeepTarget is reachable)
+NextPhase(ph, d) == IF ph \in {0, 2} /\ d >= DeepTarget THEN ph + 1
+                    ELSE IF ph = 1 /\ d <= 3 THEN 2 ELSE ph
+Phase(t) == phase' = [phase EXCEPT ![t] = NextPhase(@, Len(stack'[t]))]
 Derive(p, m) == [k \in Keys |-> IF m[k] # 0 THEN m[k] ELSE Value(val, p, k)]
 MapSeq(m) == [k \in 1..NK |-> m[k]]
 
 (* ---- Context::SetValue / RuntimeContext::SetValue ---------------------- *)
 SetValue(t, p, k, v) ==
-  /\ NCtx < MaxCtx /\ NSet < MaxSet /\ p \in Ctxs /\ k \in Keys /\ v \in Val
+  /\ NCtx < MaxCtx /\ NSet < MaxSet /\ p \in Handles /\ k \in Keys /\ v \in Val
   /\ LET m == [j \in Keys |-> IF j = k THEN v ELSE 0] IN
      /\ val' = Append(val, Derive(p, m))
      /\ origin' = Append(origin, [p |-> p, m |-> m, sc |-> FALSE])
-  /\ UNCHANGED <<stack, toks, scopes>>
+  /\ live' = live \cup {NCtx + 1}
+  /\ UNCHANGED <<stack, toks, scopes, phase>>
   /\ Rec([NoOp EXCEPT !.op = "SetValue", !.t = t, !.c = p, !.k = k, !.v = v, !.n = NCtx + 1])
   /\ Flag((IF Value(val, p, k) # 0 THEN {"shadow"} ELSE {}) \cup
           (IF p # 0 /\ \E q \in 1..NCtx : q # p /\ origin[q].p = p THEN {"sibling"} ELSE {}))
@@ -103,23 +119,26 @@ SetValue(t, p, k, v) ==
 (* ---- Context::SetValues(map): no duplicate keys inside one map ---------- *)
 Maps == {m \in [Keys -> Val \cup {0}] : Cardinality({k \in Keys : m[k] # 0}) <= MaxMap}
 SetValues(t, p, m) ==
-  /\ NCtx < MaxCtx /\ NSet < MaxSet /\ p \in Ctxs
+  /\ NCtx < MaxCtx /\ NSet < MaxSet /\ p \in Handles
   /\ val' = Append(val, Derive(p, m))
   /\ origin' = Append(origin, [p |-> p, m |-> m, sc |-> FALSE])
-  /\ UNCHANGED <<stack, toks, scopes>>
+  /\ live' = live \cup {NCtx + 1}
+  /\ UNCHANGED <<stack, toks, scopes, phase>>
   /\ Rec([NoOp EXCEPT !.op = "SetValues", !.t = t, !.c = p, !.m = MapSeq(m), !.n = NCtx + 1])
   /\ Flag((IF \A k \in Keys : m[k] = 0 THEN {"emptymap"} ELSE {}) \cup
           (IF \E k \in Keys : m[k] # 0 /\ Value(val, p, k) # 0 THEN {"shadowmap"} ELSE {}))
 
 (* ---- RuntimeContext::Attach -------------------------------------------- *)
 Attach(t, c) ==
-  /\ c \in Ctxs /\ Len(stack[t]) < MaxDepth
+  /\ c \in Handles /\ Len(stack[t]) < MaxDepth
   /\ stack' = [stack EXCEPT ![t] = Append(@, [c |-> c, before |-> Cur(stack, t)])]
   /\ toks' = toks \cup {c}
-  /\ UNCHANGED <<val, origin, scopes>>
+  /\ Phase(t)
+  /\ UNCHANGED <<val, origin, scopes, live>>
   /\ Rec([NoOp EXCEPT !.op = "Attach", !.t = t, !.c = c])
   /\ Flag((IF Len(stack[t]) + 1 >= DeepTarget THEN {"deep"} ELSE {}) \cup
-          (IF Occ(stack, t, c) # {} THEN {"reattach"} ELSE {}))
+          (IF Occ(stack, t, c) # {} THEN {"reattach"} ELSE {}) \cup
+          (IF phase[t] = 2 /\ Len(stack[t]) + 1 >= DeepTarget THEN {"regrow"} ELSE {}))
 
 (* ---- RuntimeContext::Detach(token of context c) -------------------------- *)
 Unwind(t, c) == IF Occ(stack, t, c) = {} THEN stack
@@ -133,11 +152,14 @@ DetachFlags(t, c) ==
        (IF Cardinality(o) > 1 THEN {"dup"} ELSE {}) \cup
        (IF Cardinality(o) > 1 /\ Max(o) < Len(stack[t]) THEN {"dup_ooo"} ELSE {}) \cup
        (IF Len(stack[t]) >= 15 /\ Max(o) <= 6 THEN {"ooo_deep"} ELSE {}) \cup
-       (IF Len(stack[t]) >= 31 /\ Max(o) <= 14 THEN {"ooo_deep2"} ELSE {})
+       (IF Len(stack[t]) >= 31 /\ Max(o) <= 14 THEN {"ooo_deep2"} ELSE {}) \cup
+       (IF Len(stack[t]) >= 15 /\ Max(o) - 1 <= 3 THEN {"unwind_to_small"} ELSE {}) \cup
+       (IF phase[t] = 3 /\ Max(o) < Len(stack[t]) /\ Len(stack[t]) >= 15 /\ Max(o) <= 7 THEN {"ooo_after_regrow"} ELSE {})
 Detach(t, c) ==
   /\ c \in toks
   /\ stack' = Unwind(t, c)
-  /\ UNCHANGED <<val, origin, toks, scopes>>
+  /\ Phase(t)
+  /\ UNCHANGED <<val, origin, toks, scopes, live>>
   /\ Rec([NoOp EXCEPT !.op = "Detach", !.t = t, !.c = c,
                       !.ok = IF Occ(stack, t, c) # {} THEN 1
                              ELSE IF c = 0 /\ stack[t] = <<>> THEN 2 ELSE 0])
@@ -153,21 +175,42 @@ ScopeEnter(t, s) ==
      /\ origin' = Append(origin, [p |-> p, m |-> m, sc |-> TRUE])
      /\ stack' = [stack EXCEPT ![t] = Append(@, [c |-> n, before |-> p])]
      /\ scopes' = scopes \cup {n}     \* the Scope keeps its token private: no Detach(n) by hand
+     /\ live' = live \cup {n}         \* (the program reads the new context with GetCurrent())
      /\ UNCHANGED toks
+     /\ Phase(t)
      /\ Rec([NoOp EXCEPT !.op = "ScopeEnter", !.t = t, !.v = 100 + s, !.n = n])
   /\ Flag((IF SpanOf(val, Cur(stack, t)) # 0 THEN {"nested_scope"} ELSE {}) \cup
-          (IF Len(stack[t]) + 1 >= DeepTarget THEN {"deep"} ELSE {}))
+          (IF Len(stack[t]) + 1 >= DeepTarget THEN {"deep"} ELSE {}) \cup
+          (IF phase[t] = 2 /\ Len(stack[t]) + 1 >= DeepTarget THEN {"regrow"} ELSE {}))
 
 (* ---- ~Scope: the token's destructor detaches (no result observable) ------ *)
 ScopeExit(t, c) ==
   /\ c \in scopes
   /\ stack' = Unwind(t, c)
   /\ scopes' = scopes \ {c}
-  /\ UNCHANGED <<val, origin, toks>>
+  /\ Phase(t)
+  /\ UNCHANGED <<val, origin, toks, live>>
   /\ Rec([NoOp EXCEPT !.op = "ScopeExit", !.t = t, !.c = c, !.ok = 2])
   /\ Flag((IF Occ(stack, t, c) # {} /\ Max(Occ(stack, t, c)) < Len(stack[t]) THEN {"scope_ooo"} ELSE {}) \cup
           (IF Occ(stack, t, c) # {} /\ SpanOf(val, stack[t][Max(Occ(stack, t, c))].before) # 0
-              THEN {"scope_restores_span"} ELSE {}))
+              THEN {"scope_restores_span"} ELSE {}) \cup
+          (IF Occ(stack, t, c) # {} /\ c \notin live THEN {"scope_exit_destroys"} ELSE {}))
+
+(* ---- the program drops its handle to context c (the object dies when nothing else refers to it) *)
+Children(c) == {q \in live : origin[q].p = c}
+DropContext(t, c) ==
+  /\ c \in live /\ Cardinality((1..NCtx) \ live) < MaxDrop
+  /\ live' = live \ {c}
+  /\ UNCHANGED <<val, origin, stack, toks, scopes, phase>>
+  /\ Rec([NoOp EXCEPT !.op = "Drop", !.t = t, !.c = c])
+  /\ Flag(LET p == origin[c].p
+               attached == \E u \in Threads : Occ(stack, u, c) # {} IN
+           (IF Children(c) = {} /\ p \in live THEN {"drop_child_first"} ELSE {}) \cup
+           (IF Children(c) = {} /\ p \in live /\ origin[p].p # 0 /\ ~attached /\ c \notin toks
+               THEN {"drop_leaf_of_chain"} ELSE {}) \cup
+           (IF Children(c) # {} THEN {"drop_parent_first"} ELSE {}) \cup
+           (IF Children(c) # {} /\ p \in live THEN {"drop_middle"} ELSE {}) \cup
+           (IF attached THEN {"drop_attached"} ELSE {}))
 
 (* ---- generation runs only: a closing no-op step, so that a random walk ends in exactly one ---- *)
 (* ---- exported behaviour (observations are still compared after it)                      ---- *)
@@ -182,15 +225,16 @@ DoAttach     == \E t \in Threads, c \in Ctxs : Attach(t, c)
 DoDetach     == \E t \in Threads, c \in toks : Detach(t, c)
 DoScopeEnter == \E t \in Threads, s \in 1..NS : ScopeEnter(t, s)
 DoScopeExit  == \E t \in Threads, c \in scopes : ScopeExit(t, c)
+DoDrop       == \E t \in Threads, c \in live : DropContext(t, c)
 
-Next == DoSetValue \/ DoSetValues \/ DoAttach \/ DoDetach \/ DoScopeEnter \/ DoScopeExit \/ End
+Next == DoSetValue \/ DoSetValues \/ DoAttach \/ DoDetach \/ DoScopeEnter \/ DoScopeExit \/ DoDrop \/ End
 Spec == Init /\ [][Next]_vars
 
 (* ======================= the property C10 ================================ *)
 TypeOK == /\ Len(origin) = Len(val)
           /\ \A c \in 1..NCtx : val[c] \in [Keys -> Val \cup {0}] /\ origin[c].p \in 0..(c - 1)
           /\ \A t \in Threads : \A i \in 1..Len(stack[t]) : stack[t][i].c \in Ctxs
-          /\ toks \subseteq Ctxs /\ scopes \subseteq Ctxs
+          /\ toks \subseteq Ctxs /\ scopes \subseteq Ctxs /\ live \subseteq 1..NCtx
 
 \* "the most recent binding of a key is the one returned": walk the derivation chain
 RECURSIVE Chain(_, _)
@@ -205,8 +249,11 @@ StackFrames == \A t \in Threads : \A i \in 1..Len(stack[t]) :
                  stack[t][i].before = IF i = 1 THEN 0 ELSE stack[t][i - 1].c
 
 \* ---- action properties (checked on every transition: PROPERTY [][..]_vars) ----
+\* ... also when OTHER contexts (children, parents, siblings) are dropped: DropContext leaves val, the
+\* stacks and every other handle alone
 Immutable == [][/\ Len(val') >= Len(val)
-                /\ \A c \in 1..Len(val) : val'[c] = val[c]]_vars
+                /\ \A c \in 1..Len(val) : val'[c] = val[c]
+                /\ last'.op = "Drop" => (stack' = stack /\ live' = live \ {last'.c} /\ Len(val') = Len(val))]_vars
 AttachMakesCurrent == [][last'.op = "Attach" => Cur(stack', last'.t) = last'.c]_vars
 Matched(l) == Occ(stack, l.t, l.c) # {}
 DetachRestores ==
@@ -236,6 +283,12 @@ EmitAll == (Len(hist) = GenDepth /\ last.op = "End") => PrintT(<<"BEH", ToJson(h
 \* generation bias: build a deep stack first (crosses the 2/6/14/30/62 reallocation steps of the
 \* real thread-local array), only then allow detaching
 DeepFirst == ("deep" \notin flags) => last'.op \in {"Attach", "ScopeEnter", "SetValue", "SetValues"}
+\* grow beyond DeepTarget, unwind to <= 3, grow beyond DeepTarget again, then anything (shrink-after-growth)
+Grow == {"Attach", "ScopeEnter", "SetValue", "SetValues", "End"}
+DeepCycle == LET t == last'.t IN
+             (last'.op # "End") =>
+               /\ phase[t] \in {0, 2} => last'.op \in Grow
+               /\ phase[t] = 1 => last'.op \in {"Detach", "ScopeExit", "Drop"}
 Closing == (Len(hist) = GenDepth - 1) => last'.op = "End"
 Wit(f) == (f \in flags) => (PrintT(<<"BEH", ToJson(hist)>>) /\ FALSE)
 WitShadow       == Wit("shadow")
@@ -254,4 +307,13 @@ WitOooDeep2     == Wit("ooo_deep2")
 WitNestedScope  == Wit("nested_scope")
 WitScopeOoo     == Wit("scope_ooo")
 WitScopeRestore == Wit("scope_restores_span")
+WitScopeDestroy == Wit("scope_exit_destroys")
+WitDropChild    == Wit("drop_child_first")
+WitDropLeaf     == Wit("drop_leaf_of_chain")
+WitDropParent   == Wit("drop_parent_first")
+WitDropMiddle   == Wit("drop_middle")
+WitDropAttached == Wit("drop_attached")
+WitUnwindSmall  == Wit("unwind_to_small")
+WitRegrow       == Wit("regrow")
+WitOooRegrow    == Wit("ooo_after_regrow")
 =============================================================================
